@@ -1,6 +1,7 @@
 package modes
 
 import (
+	"strings"
 	"context"
 	"crypto/tls"
 	"encoding/json"
@@ -189,6 +190,7 @@ type rawPeer struct {
 	tls  *tls.Config
 	enc  string
 	wmu  sync.Mutex
+	bad  bool // answers the server's TLS handshake with bytes that are not TLS
 }
 
 func newRawPeer(raw pair.BufConn, cfg *tls.Config) *rawPeer {
@@ -208,6 +210,12 @@ func (p *rawPeer) send(v interface{}) {
 func (p *rawPeer) upgrade() error {
 	if p.tls == nil {
 		return errors.New("peer has no TLS configuration")
+	}
+	if p.bad {
+		p.wmu.Lock()
+		p.conn.Write([]byte("GET / HTTP/1.1\r\nHost: example\r\n\r\n"))
+		p.wmu.Unlock()
+		return errors.New("peer does not speak TLS")
 	}
 	c := tls.Client(p.raw, p.tls)
 	c.SetDeadline(time.Now().Add(10 * time.Second))
@@ -273,13 +281,14 @@ func rawSes(m map[string]interface{}) *hsSes {
 func runServerHs(c *hsCase) (obs hsObs) {
 	var tcfgS *lime.TCPConfig
 	var tcfgC *tls.Config
-	if c.Route == "pipe-tls" {
+	if strings.HasPrefix(c.Route, "pipe-tls") {
 		s, cl := pair.TLSConfigs()
 		tcfgS, tcfgC = &lime.TCPConfig{TLSConfig: s}, cl
 	}
 	pc, sconn := pair.NewBufConns() // peer end, server end
 	st := lime.NewTCPTransportFromConn(sconn, true, tcfgS)
 	peer := newRawPeer(pc, tcfgC)
+	peer.bad = c.Route == "pipe-tls-bad"
 	sc := lime.NewServerChannel(st, 1, lnode(c.Cfg.Node), c.Cfg.Sid)
 	log := &evLog{}
 	ai, ri := 0, 0
